@@ -71,8 +71,14 @@ struct Out {
     stderr: String,
 }
 
+thread_local! {
+    /// which build of the tools the current pass runs: "debug" (dev profile) or "release" (the crate's release
+    /// profile: no debug assertions, no overflow checks, LTO - what `cargo install` gives a user)
+    static PROFILE: std::cell::Cell<&'static str> = const { std::cell::Cell::new("debug") };
+}
+
 fn run_tool(tool: &str, args: &[&str]) -> Result<Out, Failure> {
-    let bin = verif_root().join("harness").join("target").join("cli").join("debug").join(tool);
+    let bin = verif_root().join("harness").join("target").join("cli").join(PROFILE.with(|p| p.get())).join(tool);
     if !bin.exists() {
         // infrastructure, not a verdict: surfaces as inconclusive
         panic!("HARNESS-ABORT: tool binary {} is missing (run ./setup.sh or ./run_check.sh C19)", bin.display());
@@ -98,6 +104,20 @@ fn tail(s: &str) -> String {
 }
 
 pub fn run_case(case: &Case, st: &mut Stats) -> CaseResult {
+    // every case is run against both builds of the tools
+    for profile in ["debug", "release"] {
+        PROFILE.with(|p| p.set(profile));
+        let r = run_case_on_current_build(case, st).map_err(|mut f| {
+            f.detail = format!("[{} build of the tools] {}", profile, f.detail);
+            f
+        });
+        PROFILE.with(|p| p.set("debug"));
+        r?;
+    }
+    Ok(())
+}
+
+fn run_case_on_current_build(case: &Case, st: &mut Stats) -> CaseResult {
     let sc = Scratch::new();
     // ---------------- weighted_model_count ----------------
     let mut src = SepSource { sel: &case.seps, pos: 0 };
@@ -335,7 +355,7 @@ pub fn run_case(case: &Case, st: &mut Stats) -> CaseResult {
 impl SubCheckT for Tools {
     type Case = Case;
     const NAME: &'static str = "tools";
-    const RULE: &'static str = "the three binaries built from /repo (feature cli, dev profile) run as subprocesses on generated files: weighted_model_count -f F -w W [-c CFG] in single-count mode with an s-expression formula (<=5 names), dyadic weights (non-normalised, or all listed pairs normalised) for a random subset of its names plus 0..2 names that occur only in the weights file, and no config, a config without an order, or a full permutation of all names: printed unweighted count = number of models over all variables, printed weighted count = exact sum over those models of the weight products ((0,0) for names without weights), compared after parsing the two labelled stdout lines; bottomup_formula_to_bdd (linear / manual order) and bottomup_cnf_to_bdd (auto_minfill / auto_force; >=1 clause, no empty clause for FORCE; all CNF families of the other checks, header counts right or too large, final 0 sometimes missing): stdout JSON read by the harness's reader denotes the input formula. Non-trivial: >=3 variables, the formula's BDD skips a level on some path under the order used, and some weight pair with low+high != 1";
+    const RULE: &'static str = "the three binaries built from /repo (feature cli) twice, with the dev profile and with the crate's release profile, each run as subprocesses on generated files: weighted_model_count -f F -w W [-c CFG] in single-count mode with an s-expression formula (<=5 names), dyadic weights (non-normalised, or all listed pairs normalised) for a random subset of its names plus 0..2 names that occur only in the weights file, and no config, a config without an order, or a full permutation of all names: printed unweighted count = number of models over all variables, printed weighted count = exact sum over those models of the weight products ((0,0) for names without weights), compared after parsing the two labelled stdout lines; bottomup_formula_to_bdd (linear / manual order) and bottomup_cnf_to_bdd (auto_minfill / auto_force; >=1 clause, no empty clause for FORCE; all CNF families of the other checks, header counts right or too large, final 0 sometimes missing): stdout JSON read by the harness's reader denotes the input formula. Non-trivial: >=3 variables, the formula's BDD skips a level on some path under the order used, and some weight pair with low+high != 1";
     fn cases(tier: Tier) -> u32 {
         tier.pick(400, 8000)
     }
@@ -390,6 +410,7 @@ pub fn property() -> Property {
             "weights are dyadic k/8 <= 5 so that every sum and product is exact in f64 and compared with ==",
             "DIMACS inputs of the CNF converter have >= 1 clause (the tool asserts a dtree needs a leaf) and no empty clause under auto_force (usize underflow in the span heuristic): excluded by construction",
             "a missing tool binary is an infrastructure error (exit 2), never a verdict",
+            "flags and non-trivial marks are recorded once per build of the tools, so histogram counts are doubled",
         ],
         nt_floor_percent: 10,
     }
